@@ -20,8 +20,8 @@ EXPLANATION = (
     '(h) the type registry keeps no lookup memo that registration does not '
     'reset; (i) the JSON text is ASCII-safe for every file encoding.  Value-'
     'level round-trip equality is not decided.')
-FLOORS = {'C05.a': 25, 'C05.b': 3, 'C05.c': 3, 'C05.d': 3, 'C05.e': 3,
-          'C05.f': 4, 'C05.g': 3, 'C05.h': 2, 'C05.i': 1}
+FLOORS = {'C05.a': 12, 'C05.b': 1, 'C05.c': 1, 'C05.d': 1, 'C05.e': 1,
+          'C05.f': 2, 'C05.g': 1, 'C05.h': 1, 'C05.i': 1}
 FILES = ['pyglove/core/utils/json_conversion.py', 'pyglove/core/symbolic/base.py',
          'pyglove/core/symbolic/object.py', 'pyglove/core/symbolic/dict.py',
          'pyglove/core/symbolic/list.py', 'pyglove/core/typing/value_specs.py',
@@ -162,7 +162,7 @@ def rule_a(ctx):
       ctx.ob('C05.a', construct, not problems,
              f'emitted key `{key}` is accepted by the constructor and, when omitted at its '
              f'sentinel, restored by an equal default', loc, '; '.join(problems))
-  if n < 60:
+  if n < 30:
     raise AnalysisError(f'only {n} to_json_dict rows found')
 
 
